@@ -83,4 +83,39 @@ def connEnd {Msg} (s : CS Msg) : CS Msg :=
 /-- the handler outcome used by the correspondence driver: the handlers of the listed messages raise -/
 def raisesOn (l : List Bytes) (m : Bytes) : HOut := if l.contains m then .raised else .returned
 
+/-! ## Configurations that change the decode path
+
+`openflow.nicira` (a supported, non-default component) replaces ONE entry of the table of unpackers every
+controller-side connection uses (`nicira._init_unpacker`: `unpackers[OFPT_VENDOR] = _unpack_nx_vendor`); the new entry
+looks at fields of the message before it decides which decoder gets it. -/
+
+/-- entry `ty0` of a table of unpackers replaced by `V` -/
+def replaceEntry {Msg} (U : Unpack Msg) (ty0 : Nat) (V : Unpack Msg) : Unpack Msg :=
+  fun ty buf off => if ty = ty0 then V ty buf off else U ty buf off
+
+def be32 (b : Bytes) (i : Nat) : Nat :=
+  ((byteAt b i * 256 + byteAt b (i+1)) * 256 + byteAt b (i+2)) * 256 + byteAt b (i+3)
+
+def nxVendorId : Nat := 0x2320
+
+/-- `nicira._unpack_nx_vendor (raw, offset)`: `_unpack("!L", raw, offset+8)` — raises when the buffer ends before
+    offset+12 —, another vendor's message goes to the old entry; `_unpack("!L", raw, offset+12)` — raises when the buffer
+    ends before offset+16 —, the decoder `N subtype` of that Nicira subtype gets it, the old entry when there is none. -/
+def nxVendor {Msg} (old : Unpack Msg) (N : Nat → Option (Unpack Msg)) : Unpack Msg := fun ty buf off =>
+  if buf.length < off + 12 then .raise else
+  if be32 buf (off+8) ≠ nxVendorId then old ty buf off else
+  if buf.length < off + 16 then .raise else
+  match N (be32 buf (off+12)) with
+  | some d => d ty buf off
+  | none => old ty buf off
+
+/-- the same entry reading vendor id and subtype in ONE access of 8 bytes (what the code must NOT do: a 12-byte message
+    of another vendor has no subtype field, the access reaches into whatever follows it in the buffer) -/
+def nxVendorEager {Msg} (old : Unpack Msg) (N : Nat → Option (Unpack Msg)) : Unpack Msg := fun ty buf off =>
+  if buf.length < off + 16 then .raise else
+  if be32 buf (off+8) ≠ nxVendorId then old ty buf off else
+  match N (be32 buf (off+12)) with
+  | some d => d ty buf off
+  | none => old ty buf off
+
 end Pox.Framing
